@@ -825,6 +825,9 @@ func (f *frame) stmt(s ast.Stmt) (ctl, error) {
 				keys = append(keys, int64(i))
 				elems = append(elems, int64(r))
 			}
+		case *Closure, *Stub:
+			// range over a function (iter.Seq / iter.Seq2): the loop body becomes the yield function
+			return f.rangeOverFunc(s, sl, my)
 		default:
 			return ctlNone, unsup(s.Pos(), "range over %T", xv)
 		}
@@ -863,6 +866,65 @@ func (f *frame) stmt(s ast.Stmt) (ctl, error) {
 		return ctlNone, nil
 	}
 	return ctlNone, unsup(s.Pos(), "statement %T", s)
+}
+
+// rangeOverFunc runs `for k, v := range fn` for an iterator function: fn is called with a yield
+// function that executes the loop body; break, return and outer control leave the loop by making yield return false.
+func (f *frame) rangeOverFunc(s *ast.RangeStmt, fn Value, my string) (ctl, error) {
+	pending := ctlNone
+	yield := &Stub{Name: "yield", Fn: func(in *Interp, args []Value) ([]Value, error) {
+		if pending != ctlNone {
+			return nil, &Panic{What: "range function continued iteration after the loop body returned false"}
+		}
+		inner := newEnv(f.env)
+		saved := f.env
+		f.env = inner
+		defer func() { f.env = saved }()
+		bind := func(x ast.Expr, v Value) error {
+			id, ok := x.(*ast.Ident)
+			if !ok || id.Name == "_" {
+				return nil
+			}
+			if s.Tok == token.DEFINE {
+				inner.define(f.info.Defs[id], copyVal(v))
+				return nil
+			}
+			return f.store(id, copyVal(v))
+		}
+		if s.Key != nil && len(args) > 0 {
+			if err := bind(s.Key, args[0]); err != nil {
+				return nil, err
+			}
+		}
+		if s.Value != nil && len(args) > 1 {
+			if err := bind(s.Value, args[1]); err != nil {
+				return nil, err
+			}
+		}
+		c, err := f.block(s.Body, true)
+		if err != nil {
+			return nil, err
+		}
+		in.Fuel--
+		if in.Fuel < 0 {
+			return nil, unsup(s.Pos(), "out of fuel in loop")
+		}
+		if stop, up := f.loopCtl(c, my); stop {
+			pending = up
+			if up == ctlNone {
+				pending = ctlBreak
+			}
+			return []Value{false}, nil
+		}
+		return []Value{true}, nil
+	}}
+	if _, err := f.in.CallValue(fn, []Value{yield}); err != nil {
+		return ctlNone, err
+	}
+	if pending == ctlBreak || pending == ctlNone {
+		return ctlNone, nil
+	}
+	return pending, nil
 }
 
 func (f *frame) switchStmt(s *ast.SwitchStmt) (ctl, error) {
